@@ -6,6 +6,7 @@ import (
 	"crypto/rand"
 	"encoding/base64"
 	"encoding/json"
+	"errors"
 	"fmt"
 	"io"
 	"log/slog"
@@ -249,17 +250,20 @@ func indexIngest(repo Repo, index *types.Index, conf config.Config, locked bool)
 			}
 			dig := digest.Canonical.FromBytes(respRaw)
 			bc, _, err := repo.blobCreate(locked, BlobWithDigest(dig))
-			if err != nil {
+			if err != nil && !errors.Is(err, types.ErrBlobExists) {
 				return mod, err
 			}
-			_, err = bc.Write(respRaw)
-			if err != nil {
-				_ = bc.Close()
-				return mod, err
-			}
-			err = bc.Close()
-			if err != nil {
-				return mod, err
+			// a response with this content may exist already (identical to a previous one, or written by an interrupted conversion)
+			if err == nil {
+				_, err = bc.Write(respRaw)
+				if err != nil {
+					_ = bc.Close()
+					return mod, err
+				}
+				err = bc.Close()
+				if err != nil {
+					return mod, err
+				}
 			}
 			index.AddDesc(types.Descriptor{
 				MediaType: types.MediaTypeOCI1ManifestList,
